@@ -6,7 +6,7 @@ A patch that no longer applies (the code it touched was repaired since) is repor
 import json, os, shutil, subprocess, sys, tempfile, glob
 from concurrent.futures import ThreadPoolExecutor
 VERIF = os.path.dirname(os.path.dirname(os.path.abspath(__file__)))
-allprops = sorted(f[:-3].upper() for f in os.listdir(os.path.join(VERIF, "sa", "rules")) if f.startswith("c") and f.endswith(".py") and f[1:3].isdigit())
+allprops = sorted(f[:-3].upper() for f in os.listdir(os.path.join(VERIF, "sa", "rules")) if len(f) == 6 and f.startswith("c") and f.endswith(".py") and f[1:3].isdigit())
 args = sys.argv[1:]
 jobs = 8
 if "-j" in args:
